@@ -111,6 +111,8 @@ class UniqueNames:
         for stm in prg:
             for spred in predicates(stm):
                 self.predicates.add(spred.pred)
+            if stm.ast_type == ASTType.ShowSignature:  # a name that is shown is taken, also without rules
+                self.predicates.add(Predicate(stm.name, stm.arity))
 
     def new_auxpredicate(self, arity: int) -> Predicate:
         """provide a unique aux Predicate"""
